@@ -100,8 +100,10 @@ def bounded(tier, seed):
     standins = []
     for kind, factory in F.items():
         n = 0
-        modes = ("global", "argument") if (tier != "quick" or kind in MAIN_KINDS) else ("global",)
-        for q in targets:
+        modes = ("global", "argument") if kind in MAIN_KINDS else ("global",)
+        for ti, q in enumerate(targets):
+            if tier == "quick" and kind not in MAIN_KINDS and ti % 2 == 1 and ti > 2:
+                continue
             ops = ops_of(q)
             for mode in modes:
                 check(col, kind, factory, q, [], mode)
@@ -117,10 +119,9 @@ def bounded(tier, seed):
         depth = 1
         pair_targets = []
         if kind == "MemoryCache":
-            pair_targets = targets[:5] if tier == "quick" else targets
-        elif tier != "quick" and kind in MAIN_KINDS + ["MemoryCache.if_contains(ABC)+MemoryCache", "NoCache+MemoryCache", "CacheProxy(FileCache)",
-                                                        "StoreCache(FileStore,flat)", "FernetFileCache", "SQLStringCache.from_sqlite"]:
-            pair_targets = targets[:17]
+            pair_targets = targets[:5] if tier == "quick" else targets[:17]
+        elif tier != "quick" and kind in MAIN_KINDS + ["MemoryCache.if_attribute_equal(ns,root)"]:
+            pair_targets = targets[:5]
         for q in pair_targets:
             ops = ops_of(q)
             depth = 2
@@ -129,7 +130,7 @@ def bounded(tier, seed):
                     check(col, kind, factory, q, [op1, op2], "global")
                     n += 1
         # seeded random longer histories
-        nr = 3 if tier == "quick" else 60
+        nr = 3 if tier == "quick" else 40
         for _ in range(nr):
             q = rnd.choice(targets)
             ops = ops_of(q)
